@@ -267,9 +267,10 @@ func RunBridgeHistories(c Ctx, rep *report.Report, rng *chain.Rng, o BOpts, next
 				// "comp", or a token that calls itself "ceth"), and burns of a Sifchain-native asset (credited in the symbol itself)
 				// ... a burn may name any denom the relayer's symbol table maps to, IBC denoms with their upper-case hash included:
 				// it is credited letter for letter
-				symbol := []string{"eth", "usdc", "dash", "comp", "ceth", "ibc/FEEDFACE"}[ev%6]
+				// (a lock claim may also carry the ERC-20 symbol as it is, upper case: nothing in the chain constrains the case)
+				symbol := []string{"eth", "usdc", "dash", "comp", "ceth", "ibc/FEEDFACE", "USDT"}[ev%7]
 				ctype := ethbridgetypes.ClaimType_CLAIM_TYPE_LOCK
-				if ev%6 == 2 || ev%6 == 5 {
+				if ev%7 == 2 || ev%7 == 5 {
 					ctype = ethbridgetypes.ClaimType_CLAIM_TYPE_BURN
 				}
 				switch variant {
@@ -302,7 +303,8 @@ func RunBridgeHistories(c Ctx, rep *report.Report, rng *chain.Rng, o BOpts, next
 			case w < o.ClaimW+o.LockW:
 				u := e.Users[rng.Intn(2)]
 				burn := rng.Intn(2) == 0
-				sym := []string{"ceth", "cusdc", "dash", "rowan"}[rng.Intn(4)]
+				// every denomination a lock claim may have credited must be burnable and not lockable thereafter
+				sym := []string{"ceth", "cusdc", "dash", "rowan", "cUSDT", "ccomp", "cceth"}[rng.Intn(7)]
 				amount := RandAmount(rng, 24)
 				if rng.Intn(10) == 0 {
 					amount = new(big.Int).Mul(big.NewInt(2), chain.E(30)) // more than the sender has
